@@ -173,6 +173,18 @@ def check_property(prop, tier, seed):
                 else:
                     undecided.append(ob)
 
+    # ---- thorough tier: re-check the Lean meta-lemmas this property leans on
+    lean_ok = None
+    if tier == "thorough" and cfg.get("lean"):
+        try:
+            pl = subprocess.run(["lean", os.path.join(HERE, "lean", "MetaLemmas.lean")], stdout=subprocess.PIPE, stderr=subprocess.STDOUT, timeout=900)
+            lean_ok = pl.returncode == 0
+            if not lean_ok:
+                crash = True
+                lines.append(f"ENGINE-ERROR property={prop} lean rejected lean/MetaLemmas.lean\n" + pl.stdout.decode(errors="replace")[-800:])
+        except Exception as ex:  # lean missing: reported, not fatal for the property verdict
+            lines.append(f"NOTE property={prop} lean not run: {ex!r}")
+
     # ---- print
     for l in kf_lines.values():
         lines.append(l)
@@ -238,6 +250,8 @@ def check_property(prop, tier, seed):
         cov.setdefault("samples", [])
         if not bounded:
             cov["samples"] = [o["id"] for o in obs[:5]]
+    if lean_ok is not None:
+        cov["meta_lemmas_rechecked_with_lean"] = lean_ok
     cov["known_findings_reported"] = sorted(kf_lines)
     cov["explanation"] = cfg.get("explanation", "")
     ev["wall_s"] = round(time.time() - t0, 2)
